@@ -313,6 +313,14 @@ class LanguageAccept(Accept):
         if result is not None:
             return result
 
+        # A value that the client explicitly refused with q=0 must not come
+        # back through the fallbacks below.
+        matches = [
+            item
+            for item in matches
+            if (match := self._best_single_match(item)) is None or match[1] > 0
+        ]
+
         # Fall back to accepting primary tags. If a client accepts
         # "en-US", "en" is a valid match at this point. Need to use
         # re.split to account for 2 or 3 letter codes.
